@@ -664,10 +664,8 @@ func (ro *RedisOutput) invalidateCheckpoint(ctx context.Context, runId string) e
 		ro.cpGuard.Unlock()
 		return nil
 	}
-	if ro.bisyncEnabled() {
-		// the bidirectional namespaces keep their own recovery state
-		return nil
-	}
+	// (a bidirectional namespace too : its start looks at the mode specific records only once it
+	// has found the root checkpoint, so withdrawing the root withdraws the position)
 
 	err := util.RetryLinearJitter(ctx, func() error {
 		cli, err := ro.NewRedisConn(ctx)
